@@ -396,8 +396,11 @@ class Check:
         if ev['coverage']['states'] < 1:
             ev['coverage']['states'] = 1 if states else 0
         json.dump(ev, open(os.path.join(EVID, f'{self.pid}.json'), 'w'), indent=1, default=str)
+        seen_keys = set()
         for k, rec in known_hit:
-            print(f'KNOWN-FINDING: property={self.pid} {k["what"]}')
+            if k['key'] not in seen_keys:
+                seen_keys.add(k['key'])
+                print(f'KNOWN-FINDING: property={self.pid} {k["what"]}')
         for h in self.harnesses:
             print(f'[{self.pid}] {h["name"]}: {h["status"]} paths={h["paths"]} obligations={h["discharged"]}/{h["obligations"]} '
                   f'queries={h["queries"]} wall={h["wall_s"]}s' + (f' -- {h.get("why")}' if h.get('why') else ''))
